@@ -166,6 +166,13 @@ def rule_N2s(prog, fixture=False):
         res.broken.append("anchor vanished: nextpow2/ispow2 not found")
         return res
     for f in sorted(funcs, key=lambda f: (f.file, f.line)):
+        # a 32-bit integer does not fit the 24-bit significand of float: log2f(m), float(m) ... round m itself
+        for x in f.walk():
+            if x.k in ("ImplicitCastExpr", "CXXStaticCastExpr", "CStyleCastExpr", "CXXFunctionalCastExpr") and x.get("ck") == "IntegralToFloating" \
+                    and x.type == "float" and x.c and (x.c[0].strip().get("w") or 0) >= 32 and not _is_constant(x.c[0]):
+                res.add("N2s:%s:int-to-float" % fkey(f), VIOLATED, "%s:%d" % (prog.rel(f.file), x.line), "%s in %s" % (x.text(), f.short),
+                        "a %s is converted to single-precision float (24-bit significand): arguments above 2^24 are rounded before the "
+                        "computation, so exact integer questions (power of two? next exponent?) get wrong answers" % x.c[0].strip().type, func=f.name)
         idx = 0
         shifts = [x for x in f.walk() if x.k == "BinaryOperator" and x.op == "<<" and len(x.c) == 2 and x.tc == "int"]
         key0 = "N2s:" + fkey(f)
